@@ -420,9 +420,11 @@ def offered(run, fx, N):
                  % (N, tot[0], tot[1], tot[2], tot[3]))
 
 
+_INTERPRETED = {'graphite2::Zones::Exclusion::Exclusion', 'graphite2::Zones::Exclusion::split_at', 'graphite2::Zones::Exclusion::left_trim',
+                'graphite2::Zones::insert', 'graphite2::Zones::remove'}       # what ZONESET interprets: any of them may write either end point
 ALLOWED_WRITERS = {
-    PX + 'x': {'graphite2::Zones::Exclusion::Exclusion', 'graphite2::Zones::Exclusion::split_at', 'graphite2::Zones::Exclusion::left_trim', 'graphite2::Zones::insert'},
-    PX + 'xm': {'graphite2::Zones::Exclusion::Exclusion', 'graphite2::Zones::Exclusion::split_at', 'graphite2::Zones::remove', 'graphite2::Zones::insert'},
+    PX + 'x': _INTERPRETED,
+    PX + 'xm': _INTERPRETED,
     PZ + '_pos': {'graphite2::Zones::Zones', 'graphite2::Zones::initialise'},
     PZ + '_posm': {'graphite2::Zones::Zones', 'graphite2::Zones::initialise'},
 }
@@ -568,8 +570,20 @@ def limitargs(run, fx):
             args = ce['args']
             recv = set()
             probs = []
+            def through_locals(x):
+                x = cf.strip_all_casts(cf.deref(x))
+                for _ in range(4):
+                    if x['k'] != 'DeclRefExpr' or x.get('vid') is None or x.get('dk') != 'Var':
+                        break
+                    inits = [dd for _, st_ in cf.elements() if st_['k'] == 'DeclStmt' for dd in st_['decls'] if dd.get('vid') == x['vid'] and dd.get('init') is not None]
+                    assigned = any(u['k'] in ('BinaryOperator', 'CompoundAssignOperator') and u['op'].endswith('=') and u['op'] not in ('==', '!=', '<=', '>=') and
+                                   cf.strip(u['c'][0]).get('vid') == x['vid'] for _, u in cf.elements())
+                    if len(inits) != 1 or assigned:
+                        break
+                    x = cf.strip_all_casts(cf.deref(inits[0]['init']))
+                return x
             for r in ('limit', 'shift', 'offset'):
-                a = cf.strip_all_casts(cf.deref(args[idx[r]]))
+                a = through_locals(args[idx[r]])
                 if a['k'] != 'CXXMemberCallExpr' or a.get('fq') != getter[r]:
                     probs.append('the %s parameter `%s` receives %s, expected the slot\'s SlotCollision::%s()' % (
                         {'limit': 'limit-rectangle', 'shift': 'in-pass shift', 'offset': 'accumulated-offset'}[r], fn.f['params'][idx[r]]['n'], cf.render(a), r))
@@ -588,10 +602,15 @@ def limitargs(run, fx):
                             if dd.get('n') == rv and dd.get('init') is not None:
                                 d = cf.strip_all_casts(dd['init'])
                 ok_slot = {tgt}
-                for _, x in cf.elements():              # the attachment base of the target (kerning moves the whole cluster): a local started at the target
-                    if x['k'] == 'DeclStmt':
+                for _, x in cf.elements():              # the attachment base of the target (kerning moves the whole cluster): a local started at the
+                    if x['k'] == 'DeclStmt':            # target, or computed from the target alone by a helper (clusterBase(slotFix))
                         for dd in x['decls']:
-                            if dd.get('init') is not None and cf.render(cf.strip_all_casts(dd['init'])) == tgt and 'Slot' in (dd.get('t') or ''):
+                            if dd.get('init') is None or 'Slot' not in (dd.get('t') or ''):
+                                continue
+                            ini = cf.strip_all_casts(dd['init'])
+                            if cf.render(ini) == tgt:
+                                ok_slot.add(dd['n'])
+                            elif ini['k'] == 'CallExpr' and len(ini.get('args') or []) == 1 and cf.render(cf.strip_all_casts(ini['args'][0])) == tgt:
                                 ok_slot.add(dd['n'])
                 if d is None or d.get('fq') != 'graphite2::Segment::collisionInfo' or cf.render(cf.strip_all_casts(d['args'][0])) not in ok_slot:
                     probs.append('the collision record %s is not seg->collisionInfo(%s) (or of its attachment base), the record of the slot being fixed' % (rv, tgt))
